@@ -184,6 +184,35 @@ def run(ctx):
     if npair < 6:
         raise AnalysisBroken("only %d emulator/C literal pairs found in orcprogram-c.c" % npair)
 
+    # ---- D6: the loop bounds the generated C declares are the program's own ----------------------------
+    # `int n = %d;` must be given constant_n and `int m = %d;` constant_m; the run-time forms read ex->n and
+    # ex->params[ORC_VAR_A1] (the slot orcc stores m in).  A mix-up changes the number of rows/elements generated C
+    # processes while emulation (which reads the executor) is unaffected.
+    import re as _re6
+    asm6 = db.func("orc_compiler_c_assemble", "orcprogram-c")
+    nb = 0
+    for c in asm6.calls("orc_compiler_append_code"):
+        a = c.args()
+        lit = strip_casts(a[1]) if len(a) > 1 else None
+        txt = lit.get("str", "") if lit is not None and lit.k == "StringLiteral" else ""
+        m6 = _re6.search(r"\bint (n|m) = ([^;]+);", txt)
+        if not m6:
+            continue
+        nb += 1
+        var, rhs = m6.group(1), m6.group(2).strip()
+        if rhs == "%d":
+            arg = unparse(strip_casts(a[2])) if len(a) > 2 else ""
+            ok = arg.endswith("constant_" + var)
+            why = "`int %s = %%d` is given `%s`" % (var, arg)
+        else:
+            ok = (var == "n" and rhs == "ex->n") or (var == "m" and rhs in ("ex->params[ORC_VAR_A1]", "ORC_EXECUTOR_M(ex)"))
+            why = "`int %s = %s`" % (var, rhs)
+        rep.check(ok, "D6-LOOP-BOUNDS", where(asm6), "%s:%s" % (var, "constant" if rhs == "%d" else "runtime"),
+                  "generated C takes %s from %s" % (var, "constant_" + var if rhs == "%d" else rhs),
+                  "the generated C declares its loop bound wrongly: %s -- it processes a different number of %s than emulation" % (why, "rows" if var == "m" else "elements"), line=c.line)
+    if nb < 4:
+        raise AnalysisBroken("only %d declarations of n/m found in orc_compiler_c_assemble" % nb)
+
     # ---- D4: constant operands are spelled as the values they are ---------------------------------
     from ctemplates import check_constant_spelling
     rep.extra["constant_spelling_cases"] = check_constant_spelling(ctx, db, rep, "D4-CONST-SPELLING")
